@@ -57,7 +57,10 @@ any attributes of have all been unpacked.
 
 import io
 import pickle
+import types
+
 import dill
+from dill import _dill as _dill_internals
 
 
 class _LazySave(object):
@@ -99,10 +102,19 @@ class _NonrecursivePickler(dill.Pickler):
     on the pickling side, not the unpickling side).
     """
 
+    #: this pickler's own dispatch table: closure cells need special treatment
+    #: (see :py:meth:`_save_cell`)
+    dispatch = dill.Pickler.dispatch.copy()
+
     def __init__(self, file, **kwargs):
         dill.Pickler.__init__(self, file, **kwargs)
         self.lazywrites = []
         self.realwrite = file.write
+
+        # id -> object whose parts are being written and which is therefore
+        # not memoized yet; id -> cells waiting for that object
+        self._unfinished = {}
+        self._waiting_cells = {}
 
         # TODO: this creates a reference loop and prevents gc
         self.write = self.lazywrite
@@ -131,6 +143,33 @@ class _NonrecursivePickler(dill.Pickler):
     #: Alias to the true :py:meth:`dill.Pickler.save`.
     realsave = dill.Pickler.save
 
+    def _save_cell(self, cell):
+        """
+        Save a closure cell.
+
+        dill breaks the cycle *class -> method -> ``__class__`` cell -> class*
+        (any method using ``super()``) and *function -> cell -> function* by
+        looking at which objects are on its recursion stack.  There is no such
+        stack here, so the same thing is done with the objects whose parts are
+        still queued: a cell pointing at one of them is created empty and
+        filled in as soon as that object has been memoized.
+        """
+        try:
+            contents = cell.cell_contents
+        except ValueError:
+            contents = None
+        if id(contents) in self._unfinished and id(contents) not in self.memo:
+            self.save_reduce(
+                _dill_internals._create_cell,
+                (_dill_internals._CELL_REF,),
+                obj=cell,
+            )
+            self._waiting_cells.setdefault(id(contents), []).append(cell)
+        else:
+            _dill_internals.save_cell(self, cell)
+
+    dispatch[types.CellType] = _save_cell
+
     def lazymemoize(self, obj):
         """Store an object in the memo."""
         if self.lazywrites:
@@ -141,10 +180,23 @@ class _NonrecursivePickler(dill.Pickler):
     memoize = lazymemoize
     realmemoize = dill.Pickler.memoize
 
+    def _begin(self, obj):
+        """
+        Note that the parts of a class or function are about to be queued
+        (only these can be reached again through a closure cell before they
+        are memoized; both are always memoized in the end).
+        """
+        if (
+            isinstance(obj, (type, types.FunctionType))
+            and id(obj) not in self.memo
+        ):
+            self._unfinished[id(obj)] = obj
+
     def dump(self, obj):
         """Write a pickled representation of obj to the open file."""
         if self.proto >= 2:
             self.write(pickle.PROTO + chr(self.proto).encode("ascii"))
+        self._begin(obj)
         self.realsave(obj)
         while self.lazywrites:
             lws = self.lazywrites
@@ -152,6 +204,7 @@ class _NonrecursivePickler(dill.Pickler):
             while lws:
                 lw = lws.pop(0)
                 if isinstance(lw, _LazySave):
+                    self._begin(lw.obj)
                     self.realsave(lw.obj)
                     if self.lazywrites:
                         self.lazywrites.extend(lws)
@@ -166,6 +219,17 @@ class _NonrecursivePickler(dill.Pickler):
                         )
                     else:
                         self.realmemoize(lw.obj)
+                    self._unfinished.pop(id(lw.obj), None)
+                    cells = self._waiting_cells.pop(id(lw.obj), ())
+                    for cell in cells:
+                        # (None is left on the stack by setattr: pop it)
+                        self.save_reduce(
+                            setattr, (cell, "cell_contents", lw.obj)
+                        )
+                        self.write(pickle.POP)
+                    if cells:
+                        self.lazywrites.extend(lws)
+                        break
                 else:
                     self.realwrite(*lw)
         self.realwrite(pickle.STOP)
